@@ -129,7 +129,11 @@ pub fn run(out: &Path, seed: u64, thorough: bool, prop: &str) -> Result<(), Box<
         let mut h = if i < n { gen_history(&mut rng, &p) } else { scripted[i - n].clone() };
         if i < n {
             h = with_schedule(&h, p.schedule, &mut rng);
-            if prop == "c05" { let k = 3 + rng.below(6) as usize; h = inject_malformed(&mut rng, &h, k).0; }
+            if prop == "c05" {
+                // one history in three re-inscribes waiting transactions first (a block opened by a re-parking only)
+                if i % 3 == 1 { h = reinscribe(&h, &mut rng); }
+                let k = 3 + rng.below(6) as usize; h = inject_malformed(&mut rng, &h, k).0;
+            }
             if prop == "c08" { h = reinscribe(&h, &mut rng); }
         }
         let mut run = Run::new();
